@@ -54,6 +54,10 @@ class RealCon:
             raise sqlite3.OperationalError('database is locked')
         if s.startswith('BEGIN') and w.busy_hook is not None and w.busy_hook(self):
             raise sqlite3.OperationalError('database is locked')
+        if w.busy_hook is not None and not self.con.in_transaction and s.split(None, 1)[0] in ('INSERT', 'UPDATE', 'DELETE', 'REPLACE', 'CREATE', 'DROP') \
+                and w.busy_hook(self):
+            # a write outside a transaction needs the write lock as well (same rule as in the model)
+            raise sqlite3.OperationalError('database is locked')
         if s == 'PRAGMA PAGE_COUNT' and w.page_count_fn is not None:
             return FakeCursor([(conv(w.page_count_fn()),)])
 
